@@ -353,6 +353,8 @@ func Classify(err error) string {
 		return "notconn"
 	case errors.Is(err, mail.ErrDeadlineExtendFailed):
 		return "send"
+	case strings.Contains(msg, "without a valid SCRAM server signature"):
+		return "mech" // smtp.ErrScramServerNotVerified (matched by text: older trees do not have the variable)
 	case strings.Contains(msg, "does not support STARTTLS"):
 		return "nostarttls"
 	case strings.Contains(msg, "server does not support SMTP AUTH") && !strings.Contains(msg, "type"):
